@@ -14,14 +14,14 @@ def instances(tier):
     return [
         {"label": "auto-pong", "cfg": PLAIN,
          "consts": dict(HttpItems='HttpOk', Items='C14Items', Cfg='CfgPlain', MaxItems=3, ChunkMax=2,
-                        Faults={"write_error"}, Reacts={"none", "send", "close"}, ReactAt=AT, MaxReacts=1)},
+                        Faults={"write_error"}, Reacts={"none", "send", "close", "badclose"}, ReactAt=AT, MaxReacts=1)},
         {"label": "auto-pong-off", "cfg": NOPONG,
          "consts": dict(HttpItems='HttpOk', Items='C14Items', Cfg='CfgNoPong', MaxItems=2 if q else 3, ChunkMax=2,
                         Reacts={"none", "send"}, ReactAt=AT, MaxReacts=1)},
     ] + ([] if q else [
         {"label": "auto-pong-deep-simulation", "cfg": PLAIN, "simulate": "num=30000", "depth": 300,
          "consts": dict(HttpItems='HttpOk', Items='C14Items', Cfg='CfgPlain', MaxItems=7, ChunkMax=4, Faults={"write_error"},
-                        Reacts={"none", "send", "close"}, ReactAt=AT | {"ready", "binary"}, MaxReacts=3)}])
+                        Reacts={"none", "send", "close", "badclose"}, ReactAt=AT | {"ready", "binary"}, MaxReacts=3)}])
 
 
 def variants(sc, b):
